@@ -213,6 +213,7 @@ theorem accCompute_fresh (ns : Nat) (k : AccKind) (hk : k.fresh = true)
   | reqSum => simp [accCompute, mkItem, cellsOf, InRange]; omega
   | count name => simp [accCompute, mkItem, cellsOf, InRange]; omega
   | histogram => simp [accCompute, mkItem, cellsOf, InRange]; omega
+  | numpyHist => simp [accCompute, mkItem, cellsOf, InRange]; omega
   | sib var lo hi => simp [accCompute, mkItem, cellsOf, InRange]; omega
   | vectorize dim =>
     simp only [accCompute, maybeWithContext, M.bind_run, M.pure_run, copyM_run, readM_run]
@@ -442,6 +443,7 @@ theorem accFill_lc (hns : ∀ n, lo ≤ n → F (ns, n)) (k : AccKind) (s : AccS
   case vmc => exact LC.bind g (fun c hc => LC.pure _ (refsIn_mk (some_inj_F hc) hs.group hs.groups))
   case vectorize => exact LC.bind g (fun c hc => LC.pure _ (refsIn_mk (some_inj_F hc) hs.group hs.groups))
   case histogram => exact LC.bind g (fun c hc => LC.pure _ (refsIn_mk (some_inj_F hc) hs.group hs.groups))
+  case numpyHist => exact LC.bind g (fun c hc => LC.pure _ (refsIn_mk (some_inj_F hc) hs.group hs.groups))
   case sib var lo hi =>
     refine LC.bind g (fun c hc => LC.bind (LC.copy hns c hc) (fun d hd => ?_))
     split
@@ -552,6 +554,9 @@ theorem accCompute_lc (hns : ∀ n, lo ≤ n → F (ns, n)) (k : AccKind) (s : A
       LC.bind (LC.copy hns c hc) (fun d hd => LC.pure _ (one c d _ hc hd))))
   case histogram =>
     exact LC.bind g (fun c hc => LC.bind (LC.copy hns c hc) (fun d hd => LC.pure _ (one c d _ hc hd)))
+  case numpyHist =>
+    exact LC.bind g (fun c hc => LC.bind (LC.copy hns c hc) (fun d hd => LC.bind (LC.upd d hd _) (fun _ _ =>
+      LC.pure _ (one c d _ hc hd))))
   case sib var lo hi =>
     exact LC.bind g (fun c hc => LC.bind (LC.upd c hc _) (fun _ _ =>
       LC.bind (LC.copy hns c hc) (fun d hd => LC.pure _ (one c d _ hc hd))))
@@ -679,6 +684,13 @@ theorem applyStep_lc (hns : ∀ n, lo ≤ n → F (ns, n)) (e : Step) (n : Nat) 
     · exact LC.pure _ (by intro y h; simp at h)
     · exact LC.pure _ (stepIn_some hx)
   case emit => exact LC.pure _ (stepIn_some hx)
+  case touch v =>
+    split
+    · rename_i d hd
+      exact LC.bind (LC.upd d (hx d (dataTok_mem hd)) _) (fun _ _ => LC.pure _ (stepIn_some hx))
+    · exact LC.pure _ (stepIn_some hx)
+  case touchc v =>
+    exact LC.bind g (fun c hc => LC.bind (LC.upd c hc _) (fun _ _ => LC.pure _ (stepIn_some (withCtx_in hx hc))))
 
 /-- the value that reaches the end of a fill sequence -/
 def ChainIn (F : Tok → Prop) (r : List Nat × Option HItem) : Prop := ∀ y, r.2 = some y → ItemIn F y
